@@ -112,6 +112,8 @@ func (c *Ctx) exprLevelArgs(t *tables, m *types.Func) (consts []int64, own bool)
 			var lvl ssa.Value
 			if _, ok := isFieldLoad(call.Call.Value, t.pt.exprFld); ok && len(call.Call.Args) == 2 {
 				lvl = call.Call.Args[1]
+			} else if sh := c.stepHelper(t, call.Call.StaticCallee()); sh != nil {
+				lvl = call.Call.Args[sh.levelIdx]
 			} else if cal := call.Call.StaticCallee(); cal != nil {
 				switch fnName(cal) {
 				case "(*parser.Parser).ParseExpressionWithPrecedence":
@@ -133,6 +135,58 @@ func (c *Ctx) exprLevelArgs(t *tables, m *types.Func) (consts []int64, own bool)
 		})
 	}
 	return
+}
+
+// stepHelper: an unexported parser method  h(level int) <expression>  whose whole body is "step over the operator
+// (one advance), then parse the operand through the interceptable expression function at `level`" — the operand
+// step of the operator methods given a name. Verified on its SSA form: one block, exactly one advance, exactly one
+// call through the expression field whose level argument is the parameter itself, and that call's result returned.
+type stepHelperInfo struct {
+	levelIdx int // index among the SSA parameters (receiver = 0)
+}
+
+func (c *Ctx) stepHelper(t *tables, f *ssa.Function) *stepHelperInfo {
+	a := c.parserAnchors()
+	if f == nil || a == nil || a.nextTok == nil || f.Blocks == nil || len(f.Blocks) != 1 || f.Pkg != a.nextTok.Pkg || f.Signature.Recv() == nil || f.Parent() != nil {
+		return nil
+	}
+	if f.Object() == nil || f.Object().Exported() || f.Signature.Results().Len() != 1 || !isNodeIface(f.Signature.Results().At(0).Type()) {
+		return nil
+	}
+	var adv, sub *ssa.Call
+	other := false
+	for _, in := range f.Blocks[0].Instrs {
+		switch x := in.(type) {
+		case *ssa.Call:
+			switch {
+			case x.Call.StaticCallee() == a.nextTok && adv == nil && sub == nil:
+				adv = x
+			case sub == nil && !x.Call.IsInvoke():
+				if _, ok := isFieldLoad(x.Call.Value, t.pt.exprFld); ok && len(x.Call.Args) == 2 {
+					sub = x
+				} else {
+					other = true
+				}
+			default:
+				other = true
+			}
+		case *ssa.Store, *ssa.MapUpdate, *ssa.Defer, *ssa.Go, *ssa.Send, *ssa.Panic:
+			other = true
+		case *ssa.Return:
+			if len(x.Results) != 1 || sub == nil || x.Results[0] != ssa.Value(sub) {
+				other = true
+			}
+		}
+	}
+	if other || adv == nil || sub == nil || sub.Call.Args[0] != ssa.Value(f.Params[0]) {
+		return nil
+	}
+	for i, p := range f.Params {
+		if i > 0 && sub.Call.Args[1] == ssa.Value(p) {
+			return &stepHelperInfo{levelIdx: i}
+		}
+	}
+	return nil
 }
 
 func mustConst(c *Ctx, pkg, name string) int64 {
@@ -593,10 +647,18 @@ func ruleParenGuards(c *Ctx, t *tables) {
 			if f, ok := pinfo.Uses[sel.Sel].(*types.Func); ok && f.Name() == "ParseExpressionWithPrecedence" {
 				isExprFn = true
 			}
+			lvArg := len(call.Args) - 1
+			if f, ok := pinfo.Uses[sel.Sel].(*types.Func); ok {
+				c.buildSSA()
+				if sh := c.stepHelper(t, c.Prog.FuncValue(f)); sh != nil && sh.levelIdx-1 < len(call.Args) {
+					isExprFn = true
+					lvArg = sh.levelIdx - 1
+				}
+			}
 			if !isExprFn || len(call.Args) == 0 {
 				return
 			}
-			lv := call.Args[len(call.Args)-1]
+			lv := call.Args[lvArg]
 			if k, ok := constOfExpr(pinfo, lv); ok {
 				kk, _ := constantInt(k)
 				if kk > lowest {
